@@ -363,23 +363,86 @@ func main() {
 	}
 
 	log.Infof("%s", banner(cfg))
-	// Used to not log out the proxy, which has potentially secret credentials
-	var proxy bool = false
-	for i := range os.Args {
-		if proxy {
-			log.Debugf("ARGV[%d]: **REDACTED**", i)
-			proxy = false
-		} else {
-			log.Debugf("ARGV[%d]: %s", i, os.Args[i])
-			if "--proxy" == os.Args[i] {
-				proxy = true
-			}
-		}
+	// Do not log the proxy, which has potentially secret credentials, in
+	// whatever way it was spelled on the command line.
+	for i, arg := range redactProxyArgs(os.Args) {
+		log.Debugf("ARGV[%d]: %s", i, arg)
 	}
 	log.Debugf("process role is %v", cfg.Role)
 
 	run(cfg)
 	os.Exit(exitStatus)
+}
+
+const redactedArg = "**REDACTED**"
+
+// redactProxyArgs returns a copy of args in which every value given to the
+// proxy setting is replaced, in every spelling the flag parser accepts:
+// -proxy v, --proxy v, -proxy=v, --proxy=v, the legacy -x v and -x=v, and
+// -define / --define with a proxy assignment as its value.
+func redactProxyArgs(args []string) []string {
+	out := make([]string, len(args))
+	redactNext, defineNext := false, false
+
+	for i, arg := range args {
+		switch {
+		case redactNext:
+			out[i] = redactedArg
+			redactNext = false
+		case defineNext:
+			out[i] = redactProxyDefine(arg)
+			defineNext = false
+		default:
+			out[i] = arg
+			name, value, hasValue := splitFlagArg(arg)
+			switch name {
+			case "proxy", "x":
+				if hasValue {
+					out[i] = arg[:len(arg)-len(value)] + redactedArg
+				} else {
+					redactNext = true
+				}
+			case "define":
+				if hasValue {
+					out[i] = arg[:len(arg)-len(value)] + redactProxyDefine(value)
+				} else {
+					defineNext = true
+				}
+			}
+		}
+	}
+	return out
+}
+
+// splitFlagArg splits "-name", "--name", "-name=value" and "--name=value"
+// the way the flag package does.
+func splitFlagArg(arg string) (name, value string, hasValue bool) {
+	if len(arg) < 2 || arg[0] != '-' {
+		return "", "", false
+	}
+	name = arg[1:]
+	if name[0] == '-' {
+		name = name[1:]
+	}
+	if i := strings.IndexByte(name, '='); i > 0 {
+		return name[:i], name[i+1:], true
+	}
+	return name, "", false
+}
+
+// redactProxyDefine redacts the value of a "proxy = value" assignment given
+// to --define (which uses the configuration file syntax).
+func redactProxyDefine(setting string) string {
+	const space = " \t\r\n\v\f"
+	trimmed := strings.TrimLeft(setting, space)
+	if !strings.HasPrefix(trimmed, "proxy") {
+		return setting
+	}
+	rest := strings.TrimLeft(trimmed[len("proxy"):], space)
+	if !strings.HasPrefix(rest, "=") {
+		return setting
+	}
+	return "proxy=" + redactedArg
 }
 
 func createLegacyFlagSet(cfg *Config) *flag.FlagSet {
